@@ -22,6 +22,7 @@ func init() {
 		},
 		Run: runC10,
 		Controls: []Control{
+			{Name: "known-path-identifier-not-counted", File: "routingtable/adjRIBOut/path_id_manager.go", Old: "\t\tid := fm.idByPath[hash]\n\t\tfm.ids[id]++\n\t\treturn id, nil\n", New: "\t\tid := fm.idByPath[hash]\n\t\treturn id, nil\n", Expect: "refcount-follows-users"},
 			{Name: "dequeue-filters-without-storing", File: "protocols/bgp/server/update_sender.go", Old: "\tqueued.pfxs = remaining\n}", New: "\t_ = remaining\n}", Expect: "dequeue-stores-the-filtered-list"},
 			{Name: "not-found-decided-by-pointer-identity", File: "routingtable/adjRIBOut/adj_rib_out.go", Old: "\t\tif !found {\n\t\t\treturn false\n\t\t}\n", New: "\t\tif !found || sentPath == p {\n\t\t\treturn false\n\t\t}\n", Expect: "table-removal-is-withdrawn"},
 			{Name: "replaced-path-withdrawn-after-announcement", File: "routingtable/adjRIBOut/adj_rib_out.go", Old: "\t\toldPaths := a.rt.ReplacePath(pfx, p)\n\t\ta.removePathsFromClients(pfx, oldPaths)\n\t}\n\n\tfor _, client := range a.clientManager.Clients() {\n\t\terr := client.AddPath(pfx, p)\n\t\tif err != nil {\n\t\t\tlog.WithFields(log.Fields{\n\t\t\t\t\"sender\": \"AdjRIBOutAddPath\",\n\t\t\t}).WithError(err).Error(\"Could not send update to client\")\n\t\t}\n\t}\n\treturn nil\n", New: "\t\toldPaths := a.rt.ReplacePath(pfx, p)\n\t\tdefer a.removePathsFromClients(pfx, oldPaths)\n\t}\n\n\tfor _, client := range a.clientManager.Clients() {\n\t\terr := client.AddPath(pfx, p)\n\t\tif err != nil {\n\t\t\tlog.WithFields(log.Fields{\n\t\t\t\t\"sender\": \"AdjRIBOutAddPath\",\n\t\t\t}).WithError(err).Error(\"Could not send update to client\")\n\t\t}\n\t}\n\treturn nil\n", Expect: "withdraw-then-announce"},
@@ -101,6 +102,8 @@ func methodLocksets(p *core.Prog, rel, typ string) (map[*core.Fn]*core.Locksets,
 
 func runC10(c *core.Ctx) {
 	tableRemovalIsWithdrawn(c, "table-removal-is-withdrawn")
+	// the withdrawal is skipped on the "identifier not found" branch: identifiers must live as long as their users (shared with C11)
+	refcountFollowsUsers(c, "refcount-follows-users")
 	dequeueStoresResult(c)
 	p := c.P
 	withdrawThenAnnounce(c)
